@@ -152,6 +152,9 @@ class ConformalElectionModel(BaseElectionModel.BaseElectionModel, ABC):
 
         # so we need to make sure that they have the correct fixed effects
         all_units_shuffled = pd.concat([reporting_units_shuffled, nonreporting_units], axis=0)
+        # the lower and upper models are fitted on the training rows only, so only those rows decide which fixed
+        # effect columns are fitted. The conformalization units are heldout units like the nonreporting ones
+        all_units_shuffled["reporting"] = (np.arange(all_units_shuffled.shape[0]) < train_rows).astype(int)
         x_all = interval_featurizer.prepare_data(
             all_units_shuffled, center_features=True, scale_features=False, add_intercept=self.add_intercept
         )
